@@ -10,7 +10,7 @@ RECURSIVE StripZeros(_, _)
 StripZeros(d, n) == IF n > 0 /\ d[n] = 0 THEN StripZeros(d, n - 1) ELSE SubSeq(d, 1, n)
 CDec(key, d) == LET p == CbcDec(key, Zero16, d) IN IF DEC_STRIPS_ZEROS THEN StripZeros(p, Len(p)) ELSE p
 L == INSTANCE Bf3Layout WITH W_ADR <- 4, W_LEN <- 4, W_MAC <- 16, BLK <- 16, Base <- 256, Huge <- 1073741824,
-        Cell <- CCell, Val <- CVal, Mac <- CMac, Enc <- CEnc, Dec <- CDec, ENC_TAG <- 194, ENC_SESSION <- <<2>>
+        Cell <- CCell, Val <- CVal, Mac <- CMac, Enc <- CEnc, Dec <- CDec, ENC_TAG <- 194, ENC_SESSION <- <<2>>, KeyA <- Zero16, KeyB <- <<1,1,1,1,1,1,1,1,1,1,1,1,1,1,1,1>>, GarbageCell <- 165
 Bf3Sig  == <<66, 70, 51, 0, 0>>          \* "BF3\0\0"
 Bec2Sig == <<66, 69, 67, 50, 0>>         \* "BEC2\0"
 =============================================================================
